@@ -218,6 +218,7 @@ type treeOpts struct {
 	fan       int  // max chunk size per directory (>= 1)
 	gzip      bool // internal compression
 	shorthand bool
+	chunk     int  // when > 0: exactly this many entries per directory instead of a random 1..fan
 	mixed     bool // directories may mix tile entries and leaf pointers; sub-trees of uneven depth
 }
 
@@ -240,7 +241,10 @@ func buildTree(r *rng, es []Ent, o treeOpts) (root []byte, leaves []byte, dirs [
 		}
 		var ptrs []Ent
 		for i := 0; i < len(es); {
-			n := 1 + r.intn(o.fan)
+			n := o.chunk
+			if n <= 0 {
+				n = 1 + r.intn(o.fan)
+			}
 			if i+n > len(es) {
 				n = len(es) - i
 			}
